@@ -148,7 +148,7 @@ type histOpts struct {
 
 func genHistory(t *rapid.T, col *collector, ho histOpts) histCase {
 	ntests := rapid.IntRange(1, ho.tests).Draw(t, "ntests")
-	names := genNamePool(t, ntests+1)
+	names := withOtherRunners(t, genNamePool(t, ntests+1))
 	o := textOpts{escapeToken: true, headerLike: true, names: names, maxLines: 4}
 	c := histCase{Cfgs: []CfgSpec{{Dir: "snaps", Filename: "f"}}}
 	if rapid.IntRange(0, 2).Draw(t, "twofiles") == 0 {
